@@ -50,6 +50,8 @@ def one(pid, name, tier, checks):
             try:
                 q = subprocess.run(["/venv/bin/python", str(f)], capture_output=True, text=True, timeout=300,
                                    env=dict(os.environ, PYTHONPATH=str(wt / "src")), cwd=str(wt))
+            except subprocess.TimeoutExpired:
+                return "demo timed out"
             finally:
                 f.unlink()
             return (q.stdout + q.stderr[-2000:]).replace(str(wt), "WT")
